@@ -254,52 +254,63 @@ class PathCtx:
         return out
 
     def boundary_samples(self, want=2):
-        """inputs lying exactly on a threshold: for a pair of decisions not(a<b), not(b<a) (i.e. a == b)
-        bisect the angle magnitude of a random input until a - b changes sign"""
-        ds = self.path.decisions
-        pairs = []
-        for d in ds:
-            if d.rel == "lt" and not d.val:
-                for e in ds:
-                    if e.rel == "lt" and not e.val and e.a == d.b and e.b == d.a and (e.a, e.b) not in pairs:
-                        pairs.append((d.a, d.b))
-            if d.rel == "eq" and d.val:
-                pairs.append((d.a, d.b))
-        if not pairs:
-            return []
-        a_id, b_id = pairs[0]
+        """inputs on or next to a threshold.  Along a ray (random direction, angle magnitude s) record
+        which decision of THIS path is violated first; wherever that changes between two scales,
+        bisect both sides down to 1e-120 relative width.  End points of the refinement that follow
+        the path are returned - this reaches measure-zero boundaries (a == b) and shells that are
+        far thinner than any random sampler can hit."""
         out = []
-        for k in range(12):
+        tol_eq = mp.mpf(10) ** (-100)
+
+        def first_violation(vals):
+            try:
+                ev = numeval.DagEval(self.path, vals)
+                for k, d in enumerate(self.path.decisions):
+                    a, b = ev.node(d.a), ev.node(d.b)
+                    if abs(a - b) <= tol_eq * (1 + abs(a) + abs(b)):
+                        continue
+                    v = (a < b) if d.rel == "lt" else (a == b)
+                    if bool(v) != d.val:
+                        return k
+                return -1
+            except (ZeroDivisionError, ValueError):
+                return -2
+
+        for k in range(6):
             seed = self.seed * 104729 + k
 
-            def f(s):
+            def at(s):
                 rng = random.Random(seed)
                 vals = self.draw(rng, 0, ang=s)
-                ev = numeval.DagEval(self.path, vals)
-                return ev.node(a_id) - ev.node(b_id), vals
+                if self.sample_filter and not self.sample_filter(vals):
+                    return -3, vals
+                return first_violation(vals), vals
 
-            grid = [mp.mpf(10) ** (mp.mpf(-9) + mp.mpf(j) / 8) for j in range(0, 57)]
-            prev = None
-            for s in grid:
-                try:
-                    fs, _ = f(s)
-                except (ZeroDivisionError, ValueError):
-                    prev = None
-                    continue
-                if prev is not None and (prev[1] < 0) != (fs < 0):
-                    lo, hi, flo = prev[0], s, prev[1]
-                    for _ in range(220):
-                        mid = (lo + hi) / 2
-                        fm, _ = f(mid)
-                        if (fm < 0) == (flo < 0):
-                            lo, flo = mid, fm
-                        else:
-                            hi = mid
-                    fm, vals = f((lo + hi) / 2)
-                    if numeval.DagEval(self.path, vals).follows_path(tol=mp.mpf(10) ** (-45)):
-                        out.append(vals)
-                    break
-                prev = (s, fs)
+            grid = [mp.mpf(10) ** (mp.mpf(-9) + mp.mpf(j) / 6) for j in range(0, 58)]
+            pts = [(s,) + at(s) for s in grid]
+            found = [p for p in pts if p[1] == -1]
+            if found:
+                out.append(found[0][2])
+            else:
+                stack = [(pts[i], pts[i + 1]) for i in range(len(pts) - 1) if pts[i][1] != pts[i + 1][1]]
+                budget = 4000
+                while stack and budget > 0 and not found:
+                    (lo, hi) = stack.pop()
+                    if (hi[0] - lo[0]) <= lo[0] * mp.mpf(10) ** (-120):
+                        continue
+                    mid = (lo[0] + hi[0]) / 2
+                    g, vals = at(mid)
+                    budget -= 1
+                    m = (mid, g, vals)
+                    if g == -1:
+                        found.append(m)
+                        break
+                    if g != hi[1]:
+                        stack.append((m, hi))
+                    if g != lo[1]:
+                        stack.append((lo, m))
+                if found:
+                    out.append(found[0][2])
             if len(out) >= want:
                 break
         return out
